@@ -16,6 +16,7 @@ PARTIAL   : the option space is enumerated, not proved.
 from __future__ import annotations
 
 import contextlib
+import copy
 import io
 import json
 import math
@@ -1068,6 +1069,101 @@ def lean_correspondence(ck, drv, recs, cfg, emitted=None):
                 ck.mismatch("create_meanfield: model fails", {"cfg": cfg, "model": rep[:200]})
 
 
+def probe_grid():
+    """parameters over the whole annotation grid (bounds absent / 0 / 0.0 / positive / equal / other intervals, simplex flag
+    absent / true / false, start value as a list / a scalar with full / a scalar with full_like / a bare scalar), alone and
+    nested in lists and dicts next to non-parameters: the if/elif skeleton of make_unconstrained / create_meanfield is
+    compared with the Lean model on BEHAVIOUR, whatever the shape of the source"""
+    from torchtree.cli.utils import CONSTRAINT
+
+    Lk, Uk, Sk = CONSTRAINT.LOWER.value, CONSTRAINT.UPPER.value, CONSTRAINT.SIMPLEX.value
+    out = []
+    bounds = [(None, None), (0, None), (0.0, None), (1.5, None), (0, 1), (0.0, 1.0), (0, 2.0), (1, 1), (0.25, 0.25), (None, 1.0)]
+    forms = [{"tensor": [0.25, 0.5]}, {"tensor": 0.5, "full": [3]}, {"tensor": 0.5, "full_like": "other"}, {"tensor": 0.5}]
+    n = 0
+    for lo, hi in bounds:
+        for simplex in (None, True, False):
+            for form in forms:
+                n += 1
+                p = {"id": f"q{n}", "type": "Parameter", **copy.deepcopy(form)}
+                if lo is not None and lo > 0 and hi is None:
+                    p["tensor"] = [2.0, 3.5] if isinstance(p["tensor"], list) else 2.0
+                if simplex and lo is None and hi is None:
+                    p["tensor"] = [0.2, 0.3, 0.5] if isinstance(p["tensor"], list) else p["tensor"]
+                if lo is not None:
+                    p[Lk] = lo
+                if hi is not None:
+                    p[Uk] = hi
+                if simplex is not None:
+                    p[Sk] = simplex
+                out.append(p)
+    singles = list(out)
+    # containers: lists, dicts, nested, next to non-parameters and to an already transformed parameter
+    out.append([copy.deepcopy(x) for x in singles[:12]])
+    out.append({"id": "m", "type": "Model", "a": copy.deepcopy(singles[5]), "b": [copy.deepcopy(singles[17]), "ref", 3, None],
+                "c": {"id": "t", "type": "TransformedParameter", "transform": "torch.distributions.ExpTransform",
+                      "x": copy.deepcopy(singles[21])}})
+    out.append([])
+    out.append({"id": "plain", "type": "Parameter", "tensor": [1.0]})
+    return out
+
+
+def probe_correspondence(ck, drv):
+    """the public make_unconstrained / create_meanfield on the probe grid vs the Lean model (raising <-> `raises`)"""
+    from c13_wire import decs, encs
+
+    import torchtree.cli.advi as advi
+    import torchtree.cli.utils as utils
+
+    def real(f, j):
+        after = copy.deepcopy(j)
+        try:
+            with contextlib.redirect_stdout(io.StringIO()), contextlib.redirect_stderr(io.StringIO()):
+                out = f(after)
+            return after, out, None
+        except Exception as e:  # noqa: BLE001
+            return None, None, type(e).__name__
+
+    for j in probe_grid():
+        try:
+            wire = encs(j)
+        except TypeError:
+            continue
+        after, out, exc = real(utils.make_unconstrained, j)
+        rep = drv.ask("unc " + wire)
+        if exc is not None or rep == "raises":
+            if (exc is None) != (rep != "raises"):
+                # the model is partial where the implementation computes with numbers the model does not have (nan, …)
+                if exc in ("NotImplementedError",) or rep != "raises":
+                    ck.mismatch("make_unconstrained (probe grid): one side raises", {"probe": j, "impl": exc, "model": rep[:120]})
+            ck.bucket("corr/probe/unc-raises")
+            continue
+        if rep.startswith("ok "):
+            got = decs(rep[3:])
+            d = json_close(after, got[0], "json") or json_close(list(out[0]), got[1], "parameters_unres") \
+                or json_close(list(out[1]), got[2], "parameters")
+            if d:
+                ck.mismatch("make_unconstrained differs from model (probe grid)", {"probe": j, "first_difference": d})
+        else:
+            ck.mismatch("make_unconstrained (probe grid): model fails", {"probe": j, "model": rep[:120]})
+        ck.bucket("corr/probe/unc")
+    for j in probe_grid():
+        try:
+            wire = encs(j)
+        except TypeError:
+            continue
+        after, out, exc = real(lambda x: advi.create_meanfield("var", x, "Normal"), j)
+        rep = drv.ask("mf " + wire)
+        if rep == "unsupported" or exc is not None or rep == "raises":
+            ck.bucket("corr/probe/mf-skipped")
+            continue
+        if rep.startswith("ok "):
+            d = json_close(after, decs(rep[3:]), "json")
+            if d:
+                ck.mismatch("create_meanfield's rewriting differs from model (probe grid)", {"probe": j, "first_difference": d})
+            ck.bucket("corr/probe/mf")
+
+
 def real_create_jacobians(j):
     from torchtree.cli.jacobians import create_jacobians
 
@@ -1165,6 +1261,11 @@ def run(ck: Check):
     data = C.data_dir()
     found = {}
     try:
+        if drv is not None:
+            try:
+                probe_correspondence(ck, drv)
+            except Exception as e:  # noqa: BLE001
+                ck.mismatch("probe-grid correspondence raised", {"exc": f"{type(e).__name__}: {e}"[:300]})
         for cfg, src in configs(ck):
             oc, fails, recs, extra = run_config(C, cfg, data)
             ck.case(key=json.dumps(cfg, sort_keys=True), nontrivial=(oc != "cli-reject"), bucket=f"{src}/{cfg['cmd']}/{oc}",
